@@ -721,6 +721,22 @@ func (e *Engine) evalCall(x *Expr, se *SpecEnv) Val {
 			out.L[li] = Select(arr, k)
 		}
 		return out
+	case "hasmethod", "dyncall":
+		// hasmethod(v, M): the dynamic type of v (boxed as `any` when v is not an interface) has the methods of the
+		// interface type with method M that the function asserts to; dyncall(v, M): the result of v.M()
+		v := arg(0)
+		if len(v.L) != 2 || !types.IsInterface(v.T) || isTypeParam(v.T) {
+			v = e.makeInterface(se.st, v, types.NewInterfaceType(nil, nil))
+		}
+		mname := x.Args[1].Name
+		at, msig := e.assertedIfaceWith(mname)
+		if at == nil {
+			panic(unsupported("%s: the function asserts to no interface type with a method %s", x.Name, mname))
+		}
+		if x.Name == "hasmethod" {
+			return mkBool(And(Not(Eq(v.L[0], IntLit(0))), e.implementsTerm(at, v.L[0])))
+		}
+		return e.dynCall(mname, v, resolve(msig.Results().At(0).Type(), se.env))
 	case "loglenbefore":
 		// loglenbefore(f, i): how many calls of f had been logged when action i was performed
 		it := e.evalSpec(x.Args[1], se).L[0]
@@ -1423,4 +1439,34 @@ func constInt(s string) (int, bool) {
 		}
 	}
 	return acc, true
+}
+
+func isTypeParam(t types.Type) bool {
+	_, ok := t.(*types.TypeParam)
+	return ok
+}
+
+// assertedIfaceWith: the interface type (with a method of that name) that the root function type-asserts to.
+func (e *Engine) assertedIfaceWith(method string) (types.Type, *types.Signature) {
+	if e.root == nil {
+		return nil, nil
+	}
+	for _, b := range bodyOf(e.root).Blocks {
+		for _, in := range b.Instrs {
+			ta, ok := in.(*ssa.TypeAssert)
+			if !ok {
+				continue
+			}
+			it, ok := ta.AssertedType.Underlying().(*types.Interface)
+			if !ok {
+				continue
+			}
+			for i := 0; i < it.NumMethods(); i++ {
+				if it.Method(i).Name() == method {
+					return resolve(ta.AssertedType, e.rootEnv), it.Method(i).Type().(*types.Signature)
+				}
+			}
+		}
+	}
+	return nil, nil
 }
